@@ -71,6 +71,7 @@ type BatchCase struct {
 	// callback re-configures it (builder methods) to the case's C / Stop: the last setting before the items run wins
 	PrepSets *PrepSets `json:"prep_sets,omitempty"`
 	PostCtxAware bool `json:"post_ctx_aware,omitempty"` // post returns the context's error when it finds the context done (a well-behaved post)
+	FarDeadlineMs int `json:"far_deadline_ms,omitempty"` // the context carries a deadline this far away that is NOT reached (the case is discarded if it was): it must change nothing
 	TempErrs     bool `json:"temp_errs,omitempty"`     // failing attempts return errors that report Temporary() == true (a "transient" failure is still a failure; a cancelled run is still cancelled)
 }
 
@@ -174,6 +175,7 @@ type BatchObs struct {
 	Snapshots   int64    `json:"snapshots"`
 	Dump        string   `json:"dump,omitempty"` // goroutine dump taken when a deadlock was diagnosed
 	WallNs      int64    `json:"wall_ns"`
+	Discard     bool     `json:"discard,omitempty"` // not to be judged (a deadline that was not supposed to be reached was reached)
 	ctxErr      error
 }
 
@@ -956,6 +958,10 @@ func runBatchCase(cs *BatchCase) *BatchObs {
 			b.cancelSeq = 0
 		}
 	}
+	if cs.Cancel == nil && cs.FarDeadlineMs > 0 {
+		c, cf := context.WithTimeout(context.Background(), time.Duration(cs.FarDeadlineMs)*time.Millisecond)
+		ctx, stop = c, cf
+	}
 	defer stop()
 	b.ctx = ctx
 	b.t0 = time.Now()
@@ -1194,6 +1200,9 @@ func runBatchCase(cs *BatchCase) *BatchObs {
 	default:
 	}
 	obs.ctxErr = ctx.Err()
+	if cs.Cancel == nil && cs.FarDeadlineMs > 0 && ctx.Err() != nil && obs.Incon == "" && !obs.Deadlock {
+		obs.Discard = true // the machine was too slow: the far deadline was reached after all
+	}
 	b.mu.Lock()
 	defer b.mu.Unlock()
 	obs.Events = append([]BEvent(nil), b.ev...)
